@@ -55,7 +55,7 @@ def aors_n(op):
             loops={0: dict(
                 scalars=['ul', 'vl', 'sl', 'rl', 'cy', 'cy1', 'cy2', 'n', 'g_ci', 'g_co'],
                 havoc_targets=['up', 'vp', 'rp'],
-                havoc='{ long V_d = nondet_long (); __CPROVER_assume (0 <= V_d && V_d < V_n0); up = V_up0 + V_d; vp = V_vp0 + V_d; rp = V_rp0 + V_d; }',
+                havoc='{ long V_d = nondet_long (); __CPROVER_assume (0 <= V_d && V_d < V_n0); up = V_up0 + V_d; vp = V_vp0 + V_d; rp = V_rp0 + V_d; }', havoc_inv={'V_d': '(up - V_up0)'},
                 slices=[('V_rp0', 'V_n0 * 8')],
                 inv=inv, dec='n',
                 begin='if (V_n0 - n == gk) g_ci = cy; if (V_n0 - n == gk + 1) g_co = cy;',
@@ -91,7 +91,7 @@ def copy_loop(K, direction='incr', tag=''):
         snap = snap.replace('BASED', '__dst - __n').replace('BASES', '__src + 1 - __n')
         inv = '(1 <= __n && __n <= V_cn && __dst == V_cd + __n && __src == V_cs + __n - 1 && ' + ' && '.join(invs) + ')'
         hv = '{ long V_d = nondet_long (); __CPROVER_assume (1 <= V_d && V_d <= V_cn); __n = V_d; __dst = V_cd + V_d; __src = V_cs + V_d - 1; }'
-    return dict(snap=snap, inv=inv, dec='__n', havoc=hv,
+    return dict(snap=snap, inv=inv, dec='__n', havoc=hv, havoc_inv={'V_d': '(V_cn - __n)' if direction == 'incr' else '__n'},
                 scalars=['__x'], havoc_targets=['__n', '__dst', '__src'],
                 slices=[('V_cd', '(V_cn + 1) * 8')])
 
@@ -121,7 +121,7 @@ UNITS.append(dict(
     functions={'__gmpn_com_n': dict(
         entry='mp_size_t V_n0 = n; mp_ptr V_rp0 = rp; mp_srcptr V_up0 = up; mp_limb_t V_u = up[gkc]; long gk = gkc;',
         loops={0: dict(scalars=['ul', 'n'], havoc_targets=['up', 'rp'],
-                       havoc='{ long V_d = nondet_long (); __CPROVER_assume (0 <= V_d && V_d < V_n0); up = V_up0 + V_d; rp = V_rp0 + V_d; }',
+                       havoc='{ long V_d = nondet_long (); __CPROVER_assume (0 <= V_d && V_d < V_n0); up = V_up0 + V_d; rp = V_rp0 + V_d; }', havoc_inv={'V_d': '(up - V_up0)'},
                        slices=[('V_rp0', 'V_n0 * 8')],
                        inv='''(1 <= n && n <= V_n0 && up == V_up0 + (V_n0 - n) && rp == V_rp0 + (V_n0 - n)
                            && (gk >= V_n0 - n ==> V_up0[gk] == V_u) && (gk < V_n0 - n ==> V_rp0[gk] == ~V_u))''', dec='n')})},
